@@ -1150,6 +1150,12 @@ class Exec:
             site.resolved = r
         kind = r[0]
         if kind == 'body': return s.call_body(r[1], argv)
+        if kind == 'body_deref':
+            argv = list(argv)
+            for k in range(r[2]):
+                argv[0] = s.load(argv[0])
+                if r[3] and len(argv) > 1: argv[1] = s.load(argv[1])
+            return s.call_body(r[1], argv)
         if kind == 'model':
             s.stats['models'].add(site.key)
             return r[1](s, site, argv)
@@ -1166,7 +1172,12 @@ class Exec:
             tyc = prog.canon_type(st) if re.match(r'^[\w:]+$', st) else None
             if site.tparam and not (tyc is not None and prog.typedef(tyc) is not None): return ('dyn',)
             if tyc is not None:
-                b = prog.find_method(tyc, site.trait, site.method, site.trait_args)
+                targs = site.trait_args.lstrip('&').replace('mut ', '').strip() if site.trait_args else site.trait_args
+                b = prog.find_method(tyc, site.trait, site.method, targs)
+                nref = len(site.self_ty) - len(site.self_ty.lstrip('&'))
+                if b is not None and nref and prog.typedef(tyc) is not None:
+                    # blanket impls on references (`impl PartialEq<&B> for &A`, `Display for &T`) forward to the referent
+                    return ('body_deref', b, nref, site.trait in ('PartialEq', 'PartialOrd', 'Ord'))
                 if b is not None: return ('body', b)
                 if prog.typedef(tyc) is not None:
                     b = prog.find_trait_default(site.trait, site.method)
@@ -1231,6 +1242,12 @@ class Exec:
             site = parse_callee(f.name)
             r = s.resolve_site(site)
             if r[0] == 'body': return s.call_body(r[1], list(argv))
+            if r[0] == 'body_deref':
+                argv = list(argv)
+                for k in range(r[2]):
+                    argv[0] = s.load(argv[0])
+                    if r[3] and len(argv) > 1: argv[1] = s.load(argv[1])
+                return s.call_body(r[1], argv)
             if r[0] == 'model': return r[1](s, site, list(argv))
             if r[0] == 'dyn': return s.call_dynamic(site, list(argv))
             raise Unsupported('callee ' + f.name)
